@@ -7,7 +7,6 @@ from zlib import compress, decompress
 import logging
 import uuid
 from datetime import datetime, timedelta
-import json
 import six
 from jsonpickle import encode, decode
 from parse import compile  # pylint: disable=redefined-builtin
@@ -254,7 +253,7 @@ class S3TapeCassette(TapeCassette):
         :rtype: function
         """
         def content_filter_func(recording_str):
-            recording_metadata = json.loads(recording_str)
+            recording_metadata = decode(recording_str)
             return TapeCassette.match_against_recorded_metadata(metadata, recording_metadata)
 
         return content_filter_func
